@@ -248,7 +248,7 @@ func runClusterCheck(t *testing.T, name, rule string, healthy bool) {
 }
 
 func TestC08Healthy(t *testing.T) {
-	runClusterCheck(t, "C08Healthy", "2-3 real instances in one bubble (one clock) with a harness-owned gossip network; healthy synchronised runs: every post goes to all instances, no crash/partition/loss, gossip delay < peer_timeout/2, consistent positions (any permutation), instantaneous deliveries. Oracle: the justification rule A.9 over the UNION of all instances' deliveries (the cluster looks like one instance) and the conditional form per attempt. Non-trivial: n>=2 and only one instance ever sent while deliveries happened (cross-instance dedup).", true)
+	runClusterCheck(t, "C08Healthy", "2-3 real instances in one bubble (one clock) with a harness-owned gossip network; healthy synchronised runs: every post goes to all instances, no crash/partition/loss, gossip delay < peer_timeout/2, consistent positions (any permutation), instantaneous deliveries; one three-instance run in three has one link cut from the start, so that two instances hear each other only through the third (each instance gossips what it merges for the first time: two hops, still faster than the peer timeout; runs of this kind with oversized entries, which are not passed on, are judged as faulty runs). Oracle: the justification rule A.9 over the UNION of all instances' deliveries (the cluster looks like one instance) and the conditional form per attempt. Non-trivial: n>=2 and only one instance ever sent while deliveries happened (cross-instance dedup).", true)
 }
 
 func TestC08Faulty(t *testing.T) {
